@@ -27,6 +27,14 @@ def eff_bases(n):
     return tuple(n.__bases__) or (Interface,)
 
 
+class FalsyInterfaceClass(InterfaceClass):
+    def __bool__(self):
+        return False
+
+    def __len__(self):
+        return 0
+
+
 class Node:
     __slots__ = ('kind', 'spec', 'name', 'cls', 'obj')
 
@@ -61,7 +69,13 @@ class Graph:
         name = self.newname('I')
         spec = None
         try:
-            spec = util.mkiface(name, bases, module=self.module)
+            if rng.random() < 0.1:
+                # an interface that is false in a boolean context (a subclass adding __len__, say): still a member
+                # of the hierarchy like any other
+                spec = FalsyInterfaceClass(name, tuple(bases) or (Interface,), {}, __module__=self.module)
+                self.ctx.count('falsy_interfaces')
+            else:
+                spec = util.mkiface(name, bases, module=self.module)
         except IRO:
             pass
         if spec is None:    # (handled outside the except block so the exception, which references the object, is gone)
